@@ -43,8 +43,10 @@ ArgsMatch(rq, ev) ==
 
 \* the logged result is the one the environment model gives
 SameRes(r, ev) ==
-  IF ~r.ok THEN ~ev.ok /\ ~ev.eff /\ ev.kind = r.kind
-  ELSE IF ~ev.eff THEN ~ev.ok                      \* injected before the call: nothing to compare
+  IF ~ev.ok /\ ~ev.eff /\ ev.kind \in {"InjectedFault", "KeyboardInterrupt"} THEN TRUE
+       \* injected before the call / the call was interrupted by a signal: nothing to compare
+  ELSE IF ~r.ok THEN ~ev.ok /\ ~ev.eff /\ ev.kind = r.kind
+  ELSE IF ~ev.eff THEN FALSE
   ELSE /\ ev.rattr = r.attr /\ ev.rdata = r.data /\ ev.ready = r.ready /\ ev.win = r.win
        /\ (ev.call = "write" \/ ev.val = r.val)
 
